@@ -80,8 +80,10 @@ type attemptSpec struct {
 
 type position struct {
 	// never-subscribed, before, timed, attempt-start, in-subscribe, after-msg, blocked,
+	// prev-impl-close (inside the previous Impl's Close during a re-Subscribe),
+	// ctx-hook (inside a method of the caller's context during Subscribe start),
 	// at-disconnect, in-backoff, after-reset (and next-recv for the follow-up
-	// Close of a bare client whose first Close came before initialisation).
+	// Close of a bare client whose first Close did not reach the current Impl).
 	Kind    string `json:"kind"`
 	Attempt int    `json:"attempt"`
 	J       int    `json:"j"`
@@ -92,13 +94,15 @@ type caseSpec struct {
 	Transport     string        `json:"transport"` // scripted, fake, gnmi
 	Script        []attemptSpec `json:"script"`
 	Pos           position      `json:"close_position"`
-	Action        string        `json:"action"`          // close, cancel (cancel the Subscribe context, then Close)
-	ReleaseUS     int           `json:"release_us"`      // delay between "Close entered" and un-parking (-1: Gosched)
-	ReleaseAt     string        `json:"release_at"`      // entered | returned (bare clients only)
-	Buffered      int           `json:"buffered"`        // messages still delivered after the transport saw cancel/Close; -1: all (only a blocking read notices)
-	LaxConnect    bool          `json:"lax_connect"`     // New/Subscribe of the transport ignore an already cancelled context
-	Hold          bool          `json:"hold"`            // at the first sight of cancel/Close wait (<= 30 ms) for Close to return before delivering buffered messages
-	CloserDelayUS int           `json:"closer_delay_us"` // non-parking positions: delay between reaching the position and calling Close
+	Action        string        `json:"action"`               // close, cancel (cancel the Subscribe context, then Close)
+	ReleaseUS     int           `json:"release_us"`           // delay between "Close entered" and un-parking (-1: Gosched)
+	ReleaseAt     string        `json:"release_at"`           // entered | returned (bare clients only)
+	Buffered      int           `json:"buffered"`             // messages still delivered after the transport saw cancel/Close; -1: all (only a blocking read notices)
+	LaxConnect    bool          `json:"lax_connect"`          // New/Subscribe of the transport ignore an already cancelled context
+	Hold          bool          `json:"hold"`                 // at the first sight of cancel/Close wait (<= 30 ms) for Close to return before delivering buffered messages
+	CloserDelayUS int           `json:"closer_delay_us"`      // non-parking positions: delay between reaching the position and calling Close
+	Resub         int           `json:"resubscribes"`         // bare clients: Subscribe calls on the same client object that ended by themselves before the one Close is aimed at
+	CtxParent     string        `json:"ctx_parent,omitempty"` // ctx-hook: what the caller's custom context wraps (background | cancellable)
 }
 
 func (s *caseSpec) rc() bool { return strings.HasPrefix(s.Wrapper, "rc-") }
@@ -132,6 +136,8 @@ func compatible(pos, kind string) bool {
 		return kind == "block"
 	case "at-disconnect", "in-backoff", "after-reset":
 		return kind != "block"
+	case "prev-impl-close":
+		return kind == "err" || kind == "eof" || kind == "block"
 	}
 	return true
 }
@@ -170,6 +176,39 @@ func combos() []combo {
 						if compatible(p.p, k) {
 							out = append(out, combo{w, t, p.p, p.j, k, a})
 						}
+					}
+				}
+			}
+		}
+	}
+	// Appended later (indexes of the combinations above are unchanged).
+	for _, w := range []string{"rc-base", "rc-cache", "base", "cache"} {
+		rc := strings.HasPrefix(w, "rc-")
+		for _, t := range []string{"scripted", "fake", "gnmi"} {
+			for _, k := range allKinds {
+				if rc {
+					// Close started from inside a method of the caller's context
+					// while Subscribe derives its own context.
+					out = append(out, combo{w, t, "ctx-hook", 0, k, 0})
+					if compatible("prev-impl-close", k) {
+						out = append(out, combo{w, t, "prev-impl-close", 0, k, 1})
+					}
+					continue
+				}
+				// Bare clients re-subscribed on the same object: A earlier
+				// Subscribe calls ended by themselves, Close is aimed at the next.
+				type pj struct {
+					p string
+					j int
+				}
+				for _, p := range []pj{{"attempt-start", 0}, {"in-subscribe", 0}, {"prev-impl-close", 0}, {"after-msg", 0}, {"after-msg", 1}, {"after-msg", 2}, {"blocked", 0}} {
+					if compatible(p.p, k) {
+						out = append(out, combo{w, t, p.p, p.j, k, 1})
+					}
+				}
+				for _, p := range []pj{{"in-subscribe", 0}, {"prev-impl-close", 0}, {"after-msg", 1}} {
+					if compatible(p.p, k) {
+						out = append(out, combo{w, t, p.p, p.j, k, 2})
 					}
 				}
 			}
@@ -228,8 +267,22 @@ func genCase(cbs []combo, trial int, rng *rand.Rand) caseSpec {
 	if cb.PosKind == "timed" {
 		a = rng.Intn(3)
 	}
+	if cb.PosKind == "ctx-hook" {
+		a = 0
+	}
+	if cb.PosKind == "prev-impl-close" && a == 0 {
+		a = 1
+	}
+	if !rc {
+		s.Resub = a
+	}
 	for i := 0; i < a; i++ {
-		s.Script = append(s.Script, genAttempt(rng, cb.Transport, endKinds[rng.Intn(len(endKinds))], rng.Intn(5)))
+		kind := endKinds[rng.Intn(len(endKinds))]
+		if i == a-1 && cb.PosKind == "prev-impl-close" {
+			// the previous attempt must have installed an Impl for the client to tear down
+			kind = []string{"err", "eof", "eof"}[rng.Intn(3)]
+		}
+		s.Script = append(s.Script, genAttempt(rng, cb.Transport, kind, rng.Intn(5)))
 	}
 	k := rng.Intn(7)
 	if cb.PosKind == "after-msg" && cb.PosJ == 1 {
@@ -260,6 +313,13 @@ func genCase(cbs []combo, trial int, rng *rand.Rand) caseSpec {
 		s.Action = "cancel"
 	}
 	s.ReleaseUS = []int{0, -1, 100, 500, 500, 2000, 2000}[rng.Intn(7)]
+	if cb.PosKind == "ctx-hook" {
+		s.ReleaseUS = []int{0, -1, 100, 500, 2000, 5000}[rng.Intn(6)]
+		s.CtxParent = "cancellable"
+		if s.Action == "close" && rng.Intn(2) == 0 {
+			s.CtxParent = "background"
+		}
+	}
 	if !rc {
 		switch cb.PosKind {
 		case "attempt-start", "in-subscribe", "before", "never-subscribed":
@@ -267,6 +327,9 @@ func genCase(cbs []combo, trial int, rng *rand.Rand) caseSpec {
 			// (ErrClientInit); the parked Impl is released only after that
 			// Close returned and the follow-up Close is armed.
 			s.ReleaseAt = "returned"
+		case "prev-impl-close":
+			// The client may hold its lock while it tears the previous Impl
+			// down: waiting there for Close to return could deadlock correct code.
 		default:
 			if rng.Intn(2) == 0 {
 				s.ReleaseAt = "returned"
@@ -280,7 +343,7 @@ func genCase(cbs []combo, trial int, rng *rand.Rand) caseSpec {
 		s.Buffered = []int{0, 0, 1, 2, 3, -1, -1}[rng.Intn(7)]
 		s.LaxConnect = s.Buffered == -1 || rng.Intn(4) == 0
 	}
-	if (cb.PosKind == "before" || cb.PosKind == "timed") && cb.Transport != "gnmi" {
+	if (cb.PosKind == "before" || cb.PosKind == "timed" || cb.PosKind == "ctx-hook") && cb.Transport != "gnmi" {
 		// A Subscribe issued on an already closed client gets a cancelled
 		// context from the start; a well-behaved transport fails to connect with
 		// it (clause 5 is about streams that were running when Close came).
@@ -359,7 +422,10 @@ type kase struct {
 	expFlat            map[int][]string
 	delivered          map[int]int
 	subCalled          bool
-	subRet             bool
+	subRet             bool // the last Subscribe call of the case has returned
+	subCalls           int
+	subRets            int
+	latest             *impl
 	closeCalled        bool
 	closeRet           bool // an effective Close has returned
 	cancelCall         bool
@@ -411,8 +477,10 @@ func (c *kase) record(kind, what string) int {
 	switch kind {
 	case "sub-call":
 		c.subCalled = true
+		c.subCalls++
 	case "sub-ret":
-		c.subRet = true
+		c.subRets++
+		c.subRet = c.subRets == c.spec.Resub+1
 		if rc {
 			if !c.closeCalled && !c.cancelCall {
 				c.bad("subscribe-returned-unclosed", fmt.Sprintf("Subscribe of a ReconnectClient returned (%s) although neither Close was called nor its context cancelled: the client stopped resubscribing", what))
@@ -441,7 +509,7 @@ func (c *kase) record(kind, what string) int {
 	case "close-ret":
 		// effective closes only (the caller records refused ones as close-refused)
 		c.closeRet, c.closeOutstanding = true, false
-	case "close-refused":
+	case "close-noeffect":
 		c.closeOutstanding = false
 	case "attempt":
 		ret = c.attempts
@@ -462,7 +530,7 @@ func (c *kase) record(kind, what string) int {
 				c.r.Count("oracle_backoff_gap_checked", 1)
 			}
 			c.r.Count("oracle_grammar_steps", 1)
-		} else if c.attempts > 1 {
+		} else if c.attempts > c.subCalls {
 			c.bad("second-attempt-on-bare-client", "a bare client created a second Impl for one Subscribe")
 		}
 		c.state = stAttempt
@@ -714,6 +782,9 @@ type impl struct {
 func (c *kase) newImpl(ctx context.Context, d client.Destination) (client.Impl, error) {
 	a := c.record("attempt", "")
 	w := &impl{c: c, a: a, at: c.spec.attempt(a), ctx: ctx, closedCh: make(chan struct{}), budget: c.spec.Buffered}
+	c.mu.Lock()
+	c.latest = w
+	c.mu.Unlock()
 	c.at("attempt-start", a, 0, true)
 	if w.at.Kind == "failnew" {
 		return nil, errScripted
@@ -858,6 +929,14 @@ func (w *impl) Recv() error {
 }
 
 func (w *impl) Close() error {
+	// Closed although a newer Impl exists already: the client is tearing the
+	// previous transport down during a re-Subscribe.
+	w.c.mu.Lock()
+	newest := w.c.attempts - 1
+	w.c.mu.Unlock()
+	if newest > w.a {
+		w.c.at("prev-impl-close", newest, 0, true)
+	}
 	w.closeOnce.Do(func() {
 		close(w.closedCh)
 		if w.blk != nil {
@@ -1000,6 +1079,14 @@ func runCase(r *vlib.Run, trial int, spec caseSpec) {
 	rc := spec.rc()
 	ctx, cancel := context.WithCancel(context.Background())
 	defer cancel()
+	subCtx := context.Context(ctx)
+	if spec.Pos.Kind == "ctx-hook" {
+		parent := context.Context(ctx)
+		if spec.CtxParent == "background" {
+			parent = context.Background()
+		}
+		subCtx = &hookCtx{Context: parent, c: c}
+	}
 	q := client.Query{Addrs: []string{"c18"}, Target: "t", Queries: []client.Path{{"*"}}, Type: client.Stream, NotificationHandler: c.handler}
 
 	panicked := func(where string) {
@@ -1031,13 +1118,17 @@ func runCase(r *vlib.Run, trial int, spec caseSpec) {
 					time.Sleep(time.Duration(spec.ReleaseUS) * time.Microsecond)
 				}
 			}
-			c.record("sub-call", "")
-			var err error
-			func() {
-				defer panicked("Subscribe")
-				err = cl.Subscribe(ctx, q, c.typ)
-			}()
-			c.record("sub-ret", errString(err))
+			// Bare clients: spec.Resub earlier Subscribe calls on the same
+			// object end by themselves; Close is aimed at the last one.
+			for i := 0; i <= spec.Resub; i++ {
+				c.record("sub-call", "")
+				var err error
+				func() {
+					defer panicked("Subscribe")
+					err = cl.Subscribe(subCtx, q, c.typ)
+				}()
+				c.record("sub-ret", errString(err))
+			}
 		}()
 	}
 
@@ -1082,7 +1173,12 @@ func runCase(r *vlib.Run, trial int, spec caseSpec) {
 				close(g.release)
 			}
 			err := doClose()
-			effective := rc || err == nil
+			// A bare client's Close has an effect on the current stream only
+			// when it reached the newest Impl (before the client owns an Impl it
+			// is refused with ErrClientInit; while a re-Subscribe is still
+			// connecting it closes the previous Impl only, and the Subscribe in
+			// progress re-arms the client: not judged, a follow-up Close is).
+			effective := rc || (err == nil && c.latestClosed())
 			var next *gate
 			if !effective && round == 0 && subWillRun {
 				next = c.arm(position{Kind: "next-recv"}, false)
@@ -1091,7 +1187,7 @@ func runCase(r *vlib.Run, trial int, spec caseSpec) {
 				c.record("close-ret", errString(err))
 				c.closeRetOnce.Do(func() { close(c.closeReturned) })
 			} else {
-				c.record("close-refused", errString(err))
+				c.record("close-noeffect", errString(err))
 			}
 			if spec.ReleaseAt == "returned" {
 				close(g.release)
@@ -1222,6 +1318,39 @@ func (c *kase) judgeStuck() {
 	}
 }
 
+func (c *kase) latestClosed() bool {
+	c.mu.Lock()
+	w := c.latest
+	c.mu.Unlock()
+	return w != nil && w.isClosed()
+}
+
+// hookCtx is a legal caller-provided context: the first time any of its
+// methods is consulted (context.WithCancel consults the parent while
+// Subscribe derives its own context) it starts Close on the closer goroutine,
+// lingers a seeded moment and returns. It never waits for that Close.
+type hookCtx struct {
+	context.Context
+	c    *kase
+	once sync.Once
+}
+
+func (h *hookCtx) fire() {
+	h.once.Do(func() {
+		h.c.at("ctx-hook", 0, 0, false)
+		switch d := h.c.spec.ReleaseUS; {
+		case d < 0:
+			runtime.Gosched()
+		case d > 0:
+			time.Sleep(time.Duration(d) * time.Microsecond)
+		}
+	})
+}
+
+func (h *hookCtx) Done() <-chan struct{}           { h.fire(); return h.Context.Done() }
+func (h *hookCtx) Err() error                      { h.fire(); return h.Context.Err() }
+func (h *hookCtx) Value(k interface{}) interface{} { h.fire(); return h.Context.Value(k) }
+
 func (c *kase) hasEvent(kind string) bool {
 	for _, e := range c.events {
 		if e.Kind == kind {
@@ -1295,8 +1424,8 @@ func (c *kase) finish(stuck bool) {
 	if c.closeRet {
 		r.Count(fmt.Sprintf("oracle_after_close_messages_%d", len(c.afterClose)), 1)
 	}
-	if c.hasEvent("close-refused") {
-		r.Count("bare_client_close_refused_before_init", 1)
+	if c.hasEvent("close-noeffect") {
+		r.Count("bare_client_close_without_effect_on_current_stream", 1)
 	}
 	r.Count("attempts_observed", int64(c.attempts))
 	if judged {
@@ -1336,7 +1465,7 @@ func body(r *vlib.Run) {
 		spec  caseSpec
 	}
 	var jobs []job
-	r.ForTrials("case", r.N(5*len(cbs), 150000), func(trial int, rng *rand.Rand) {
+	r.ForTrials("case", r.N(4*len(cbs), 150000), func(trial int, rng *rand.Rand) {
 		jobs = append(jobs, job{trial, genCase(cbs, trial, rng)})
 	})
 	if r.Shard == 0 {
@@ -1362,7 +1491,7 @@ func body(r *vlib.Run) {
 
 func postMerge(tier string, counters map[string]int64) []string {
 	var out []string
-	for _, k := range []string{"never-subscribed", "before", "timed", "attempt-start", "in-subscribe", "after-msg", "blocked", "at-disconnect", "in-backoff", "after-reset"} {
+	for _, k := range []string{"never-subscribed", "before", "timed", "ctx-hook", "prev-impl-close", "attempt-start", "in-subscribe", "after-msg", "blocked", "at-disconnect", "in-backoff", "after-reset"} {
 		if k == "never-subscribed" || k == "before" || k == "timed" {
 			if counters["cases_position_"+k] == 0 {
 				out = append(out, "Close position "+k+" was never exercised")
@@ -1385,12 +1514,12 @@ func postMerge(tier string, counters map[string]int64) []string {
 func main() {
 	vlib.Main(&vlib.Spec{
 		ID:   "C18",
-		Rule: "Each case: the real BaseClient / CacheClient, bare or wrapped in the real ReconnectClient (disconnect and reset callbacks recorded), over a scripted client.Impl registered under its own type name; the Impl wraps one of three transports (purely scripted; the repository's client/fake Client; the real client/gnmi Client via NewFromConn against a scripted bufconn gNMI server) and plays a per-attempt script: fail in New / fail in Subscribe / deliver k numbered messages (1-3 notifications each; updates, deletes, syncs on gnmi) then error / EOF (io.EOF or ErrStopReading) / block. The transport is well-behaved (blocking reads return on context cancellation and on Close) and differs by seed in how many already received messages it still hands over after cancel/Close (0-3, or all). Close (1 in 7: cancellation of the Subscribe context, then Close) is issued from another goroutine at a FORCED position (the Impl or callback parks there until the harness has entered Close): never subscribed, before Subscribe (sequential / concurrent), unforced after a seeded delay (timed), attempt start, inside Impl.Subscribe, after the j-th message (first / middle / last), in a blocked read, inside the disconnect callback, during the backoff sleep, right after reset. The quick tier enumerates every wrapper x transport x position x outcome kind (x first / second attempt) once, seeded random scripts (up to 7 attempts) beyond. A case is distinct non-trivial when Close or cancel was issued and both returns were observed, by the hash of its description and its event-kind trace.",
+		Rule: "Each case: the real BaseClient / CacheClient, bare or wrapped in the real ReconnectClient (disconnect and reset callbacks recorded), over a scripted client.Impl registered under its own type name; the Impl wraps one of three transports (purely scripted; the repository's client/fake Client; the real client/gnmi Client via NewFromConn against a scripted bufconn gNMI server) and plays a per-attempt script: fail in New / fail in Subscribe / deliver k numbered messages (1-3 notifications each; updates, deletes, syncs on gnmi) then error / EOF (io.EOF or ErrStopReading) / block. The transport is well-behaved (blocking reads return on context cancellation and on Close) and differs by seed in how many already received messages it still hands over after cancel/Close (0-3, or all). Close (1 in 7: cancellation of the Subscribe context, then Close) is issued from another goroutine at a FORCED position (the Impl or callback parks there until the harness has entered Close): never subscribed, before Subscribe (sequential / concurrent), unforced after a seeded delay (timed), attempt start, inside Impl.Subscribe, after the j-th message (first / middle / last), in a blocked read, inside the disconnect callback, during the backoff sleep, right after reset, inside the previous Impl's Close while the client re-subscribes, inside a method of a caller-provided custom context while Subscribe derives its own context (Close started there on another goroutine, never awaited there). Bare clients are also re-subscribed on the same object (1-2 earlier Subscribe calls that ended cleanly or with an error) before the Subscribe Close is aimed at. The quick tier enumerates every wrapper x transport x position x outcome kind (x first / second attempt) once, seeded random scripts (up to 7 attempts) beyond. A case is distinct non-trivial when Close or cancel was issued and both returns were observed, by the hash of its description and its event-kind trace.",
 		Assumptions: []string{
 			"client.RetryBaseDelay/RetryMaxDelay are set to 10/20 ms before any ReconnectClient is created; the first backoff of each client still comes from the backoff library's 500 ms default (250-750 ms) and is tolerated",
 			"termination is restated as bounded progress: a violation only when a call is still pending 20 s (1000 x RetryMaxDelay) after Close/cancel was issued, or no event at all was recorded for 20 s (after Close/cancel, or after an ended attempt of an unclosed client), AND the process heartbeat kept running in that window AND the goroutine dump shows the awaited call; otherwise inconclusive. The statement's 'within the current backoff interval' is only reported as latency histograms (close_to_*_return_*)",
 			"the scripted transport is well-behaved by construction: its blocking reads return on context cancellation and on Impl.Close; parks are released by the harness as soon as it has entered Close (bare clients: for Closes issued before the client owns an Impl, after that refused Close returned)",
-			"Close of a bare BaseClient/CacheClient that does not yet own an Impl returns ErrClientInit and has no effect (documented); the harness issues a follow-up Close at the next read and judges termination and clause 5 on that one",
+			"Close of a bare BaseClient/CacheClient that does not yet own an Impl returns ErrClientInit and has no effect (documented); a Close that lands while a re-Subscribe on the same object is still connecting reaches only the previous Impl and the Subscribe in progress re-arms the client (what Subscribe on a closed bare client does is not specified beyond terminating). Neither is judged: the harness issues a follow-up Close at the next read and judges termination and clause 5 on the Close that reached the newest Impl",
 			"timing clauses are one-sided: disconnect->reset and disconnect->retry gaps must be >= 2.5 ms (smallest drawable backoff is 5 ms; load only lengthens them). That reset follows the backoff is taken from the property's mechanism anchor (disconnect, ctx check, backoff, reset)",
 			"after both calls returned the trace is observed for 2 ms more; later deliveries would be missed (never a false alarm)",
 		},
